@@ -116,7 +116,7 @@ META.update({
              'route function iff all passed, then the posts in reverse; a request that fails routing gets exactly the container '
              'filters around the error writer. Per-request freshness and concurrency: the event log, attributes and selected route '
              'seen at every stage are compared between the sequential history, a fresh container per request, a concurrent batch '
-             'and the model.',
+             'and the model. The library\'s own CORS filter is covered as a filter too (domain cors: the route function behind it runs exactly once iff the filter passes on and a route is found).',
         design_ref='DESIGN.md section 6, C06', note=NOTE_DISP, technique=TECH),
     'C07': dict(
         text='Theorems Props.C07_discipline, C07_wanted, C07_no_bypass (Coq, no axioms): for both entry points and every outcome '
@@ -243,7 +243,7 @@ META.update({
              'do not change a range. Proved on the model of the REPAIRED parser: the check showed on the real code dropped / '
              'mis-ranked ranges, map-order dependent answers, a nil-logger panic and the default type overriding Produces (fixed: '
              'F7a, F7b). Tied to /repo by dispatching generated requests 6 times each and requiring the answer to be among the '
-             'extracted model\'s possible answers. Theorem C05_single_answer (after fix F10, which made the reverse lookup of entity accessors deterministic): at most one possible answer for EVERY registry, Produces list, default and Accept header.',
+             'extracted model\'s possible answers. Theorem C05_single_answer (after fix F10, which made the reverse lookup of entity accessors deterministic): at most one possible answer for EVERY registry, Produces list, default and Accept header. Theorem C05_registration_time (model Builder.v of ws.Produces / ws.Consumes / ws.Route + copyDefaults): what a route inherits from its WebService is fixed when it is added, whatever is declared or added afterwards; every neg case carries a set-up history the harness performs and the model evaluates.',
         design_ref='DESIGN.md section 6, C05',
         note='trusted: Coq kernel, extraction+driver, Go harness + verif hook (registry replacement); strconv.ParseFloat oracle; '
              'differential tie (refinement: implementation answer in model set)',
